@@ -673,6 +673,88 @@ def unsortedProducerCallAllowlist : List (String × String × String) := [
 
 theorem unsorted_producer_calls_audited : unsortedProducerCalls = unsortedProducerCallAllowlist := rfl
 
+/-- Ranges over maps that are NOT declared in the ranging function — struct fields, results of
+    map-returning calls, named map types, aliases of these — in `agent/consul/fsm` and
+    `agent/consul/state`. The extractor is name based (pass 1 collects map-typed struct fields, named map
+    types and map-returning functions over fsm, state, structs, configentry, acl, pbpeering; pass 2
+    flags `range x.F`, `range f()`, `range alias`); `?` marks a name that is a map in one scanned struct
+    and something else in another. REVIEWED in the Go source, site by site:
+
+    NOT A MAP (name collision, the ranged field is a slice):
+    * every `….Services` (`[]LinkedService`, `[]IngressService`, `[]ExportedService`, `[]HTTPService`,
+      `[]TCPService`, `[]SimplifiedExportedService` — the map of that name is `NodeServices.Services`),
+      every `failover.Targets` (`[]ServiceResolverFailoverTarget` / `[]string`; the map is
+      `CompiledDiscoveryChain.Targets`): decode_downgrade.go (6), `updateTerminatingGatewayVirtualIPs`
+      cfg.Services, `ingressConfigGatewayServices`, `terminatingConfigGatewayServices`,
+      `validateProposedConfigEntryInServiceGraph` listener.Services, `validateChainIsPeerExportSafe`
+      failover.Targets, `convertTargetsToTestSpiffeIDs` failover.Targets, `ToPartitionMap`,
+      `resolvedExportedServicesTxn`, `exportedServicesForPeerTxn`,
+      `listServicesExportedToAnyPeerByConfigEntry`, `peersForServiceTxn`.
+    REAL MAPS, WRITE PATH, ORDER INSENSITIVE:
+    * catalog.go `ensureServiceTxn` addrs, `updateTerminatingGatewayVirtualIPs` addrs /
+      s.ServiceTaggedAddresses — entries copied one by one into another map (the service's tagged
+      addresses); exercised by the `gateway-vip` profile on 8 replicas.
+    * catalog_schema.deepcopy.go `upstreamDownstream.DeepCopy` o.Refs — map copy.
+    * catalog_schema.go `indexMetaFromNode` n.Meta — builds the value list of a memdb multi-value
+      index; each value is inserted into the radix tree separately.
+    * config_entry.go `readDiscoveryChainConfigEntriesTxn` res.Routers / res.Splitters /
+      res.Resolvers / res.Services — "strip nils": deletes nil entries while ranging.
+    * config_entry.go `validateChainIsPeerExportSafe` e.Failover (`map[string]ServiceResolverFailover`)
+      — every failing subset yields the same text ("contains cross-datacenter failover"). The ranges
+      over the chain's Routers / Splitters / Resolvers maps in this function WERE order dependent
+      (error text; found by this harness, signature `replica:error-text:validateChainIsPeerExportSafe`,
+      fixed witness in `witnessSection`) and go through `sortedServiceIDs` since /repo f171f7a.
+    ERROR TEXT ONLY, apply path:
+    * config_entry.go `validateProposedConfigEntryInServiceGraph` newSpiffeIDs (alias of
+      `convertTargetsToTestSpiffeIDs(chain)`), and inside that function chain.Nodes / chain.Targets
+      (first-wins on equal SPIFFE ids) — which NEW target a "cannot introduce new discovery chain
+      targets like %q" error names. Only reached for peer-exported L4 chains, where neither routers nor
+      splitters are allowed and failover targets are excluded, so one write introduces at most one new
+      target (a redirect): no diverging input exists as far as reviewed; the path is replayed by a fixed
+      witness on 8 replicas (`peer-export-l4`) and by the `config` profile (5 replicas).
+    READ PATH: `Store.ServiceAddressNodes` svc.ServiceTaggedAddresses, `Store.discoveryChainSourcesTxn`
+      chain.Targets.
+    CE-DOWNGRADE DECODE ONLY (`structs.CEDowngrade`): decode_downgrade.go `CheckEnt` s.Failover — looks
+      for enterprise-only fields, any hit gives the same answer.
+    Residual blind spot: a range over an indexed expression (`m[k]` of a map of maps) or over a map
+    reached only through an interface is still not seen; none exists in these two packages today. -/
+def mapRangeWideAllowlist : List (String × String × String × String) := [
+  ("agent/consul/fsm/decode_downgrade.go", "ShadowServiceResolverConfigEntry.CheckEnt", "s.Failover", "field?"),
+  ("agent/consul/fsm/decode_downgrade.go", "ShadowServiceResolverConfigEntry.CheckEnt", "failover.Targets", "field?"),
+  ("agent/consul/fsm/decode_downgrade.go", "ShadowIngressGatewayConfigEntry.GetRealConfigEntry", "listner.Services", "field?"),
+  ("agent/consul/fsm/decode_downgrade.go", "ShadowTerminatingGatewayConfigEntry.GetRealConfigEntry", "s.Services", "field?"),
+  ("agent/consul/fsm/decode_downgrade.go", "ShadowExportedServicesConfigEntry.GetRealConfigEntry", "s.Services", "field?"),
+  ("agent/consul/fsm/decode_downgrade.go", "ShadowHTTPRouteConfigEntry.GetRealConfigEntry", "rule.Services", "field?"),
+  ("agent/consul/fsm/decode_downgrade.go", "ShadowTCPRouteConfigEntry.GetRealConfigEntry", "s.Services", "field?"),
+  ("agent/consul/state/catalog.go", "ensureServiceTxn", "addrs", "alias:call"),
+  ("agent/consul/state/catalog.go", "Store.ServiceAddressNodes", "svc.ServiceTaggedAddresses", "field"),
+  ("agent/consul/state/catalog.go", "updateTerminatingGatewayVirtualIPs", "cfg.Services", "field?"),
+  ("agent/consul/state/catalog.go", "updateTerminatingGatewayVirtualIPs", "s.ServiceTaggedAddresses", "field"),
+  ("agent/consul/state/catalog.go", "updateTerminatingGatewayVirtualIPs", "addrs", "alias:call"),
+  ("agent/consul/state/catalog.go", "ingressConfigGatewayServices", "listener.Services", "field?"),
+  ("agent/consul/state/catalog.go", "terminatingConfigGatewayServices", "entry.Services", "field?"),
+  ("agent/consul/state/catalog_schema.deepcopy.go", "upstreamDownstream.DeepCopy", "o.Refs", "field"),
+  ("agent/consul/state/catalog_schema.go", "indexMetaFromNode", "n.Meta", "field"),
+  ("agent/consul/state/config_entry.go", "Store.discoveryChainSourcesTxn", "chain.Targets", "field?"),
+  ("agent/consul/state/config_entry.go", "validateProposedConfigEntryInServiceGraph", "newSpiffeIDs", "alias:call"),
+  ("agent/consul/state/config_entry.go", "validateProposedConfigEntryInServiceGraph", "listener.Services", "field?"),
+  ("agent/consul/state/config_entry.go", "validateChainIsPeerExportSafe", "e.Failover", "field?"),
+  ("agent/consul/state/config_entry.go", "validateChainIsPeerExportSafe", "failover.Targets", "field?"),
+  ("agent/consul/state/config_entry.go", "readDiscoveryChainConfigEntriesTxn", "res.Routers", "field"),
+  ("agent/consul/state/config_entry.go", "readDiscoveryChainConfigEntriesTxn", "res.Splitters", "field"),
+  ("agent/consul/state/config_entry.go", "readDiscoveryChainConfigEntriesTxn", "res.Resolvers", "field"),
+  ("agent/consul/state/config_entry.go", "readDiscoveryChainConfigEntriesTxn", "res.Services", "field?"),
+  ("agent/consul/state/config_entry.go", "convertTargetsToTestSpiffeIDs", "chain.Nodes", "field?"),
+  ("agent/consul/state/config_entry.go", "convertTargetsToTestSpiffeIDs", "failover.Targets", "field?"),
+  ("agent/consul/state/config_entry.go", "convertTargetsToTestSpiffeIDs", "chain.Targets", "field?"),
+  ("agent/consul/state/config_entry_exported_services.go", "SimplifiedExportedServices.ToPartitionMap", "e.Services", "field?"),
+  ("agent/consul/state/config_entry_exported_services.go", "resolvedExportedServicesTxn", "exports.Services", "field?"),
+  ("agent/consul/state/peering.go", "exportedServicesForPeerTxn", "exportConf.Services", "field?"),
+  ("agent/consul/state/peering.go", "listServicesExportedToAnyPeerByConfigEntry", "exports.Services", "field?"),
+  ("agent/consul/state/peering.go", "peersForServiceTxn", "exportedServices.Services", "field?")]
+
+theorem map_ranges_wide_audited : mapRangesWide = mapRangeWideAllowlist := rfl
+
 /-- The message-type constant block is append-only history ("entries must only ever be added"):
     the reviewed prefix of 46 constants and the flag. -/
 theorem message_types_audited :
